@@ -250,6 +250,7 @@ func genSlSend(g *genCtx) {
 			return wrapSessionless(0, specMessage(0x81, netfn|1, 0, 0x20, 1, 0, cmd, &c, prefix, data))
 		}
 		var items []string
+		strayFixed, strayFix = nil, g.rng.Intn(2) == 0
 		for i, l := range script {
 			bodyB := []byte{0x11, 0x22, byte(i)}
 			var r []byte
